@@ -231,18 +231,26 @@ def run(tier):
 
     # ---------------------------------------------------------------- (V) topology-preserving layout runs
     nruns = 150 if tier == 'quick' else 800
-    lay = {'runs': 0, 'skipped': 0, 'start_invalid': 0, 'checked_paths': 0, 'bends_after': 0, 'moved_nodes': 0, 'wall_s': 0.0, 'params': []}
+    lay = {'runs': 0, 'skipped': 0, 'start_invalid': 0, 'checked_states': 0, 'checked_paths': 0, 'bends_after': 0, 'moved_nodes': 0,
+           'wall_s': 0.0, 'params': [], 'rare_intersections': []}
     lay_viol = 0
+    rare = []            # failures classified as the known rare finding (see FP below)
+    runs = []
+    corpus = os.path.join(C.VERIF, 'corpus', 'c13_cases.json')
+    if os.path.exists(corpus):
+        for cse in json.load(open(corpus)):
+            runs.append((cse['seed'], cse['V'], cse['extra'], cse['W'], cse['border'], True))
     for r in range(nruns):
         seed = rng.next() >> 1
         V = rng.range(6, 24)
-        extra = rng.range(0, V // 2)
-        W = rng.choice([150, 250, 400])
-        args = [exe, 'layout', str(seed), str(V), str(extra), str(W), '0']
+        runs.append((seed, V, rng.range(0, V // 2), rng.choice([150, 250, 400, 600]), '0.5' if r % 4 else '1e-5', False))
+    for seed, V, extra, W, border, from_corpus in runs:
+        args = [exe, 'layout', str(seed), str(V), str(extra), str(W), '0', border]
         rc, out, err, dt = C.sh(args, timeout=300)
         lay['runs'] += 1
         lay['wall_s'] += dt
         replay = ' '.join(['build/bin/c13_topo-*'] + args[1:])
+        params = {'seed': seed, 'V': V, 'extra_edges': extra, 'W': W, 'overlap_removal_border': border}
         phases, exc, skip = convert_dump(out)
         if skip:
             lay['skipped'] += 1
@@ -265,38 +273,61 @@ def run(tier):
             lay['start_invalid'] += 1      # the generated start state itself is not in the property's domain
             continue
         evals += 1
-        if exc:
-            if lay_viol < 3:
-                res.violation({'what': 'an invariant assertion of libtopology fired during topology-preserving layout from a valid start state',
-                               'assertion': exc, 'start_state': {'nodes_x0y0x1y1': phases[0]['nodes'], 'paths': phases[0]['paths']},
-                               'replay': replay, 'params': {'seed': seed, 'V': V, 'extra_edges': extra, 'W': W}})
-            lay_viol += 1
+        lay['checked_states'] += len(phases) - 1
+        # first state (after an iteration) the verified checker rejects
+        bad, bad_phase = [], None
+        for k in range(1, len(phases)):
+            row, pa = ll[k], phases[k]
+            if row[1] != '0':
+                bad.append({'kind': CODES[1]})
+            for p, code in zip(pa['paths'], row[2:]):
+                if code != '0':
+                    bad.append({'kind': CODES[int(code)], 'code': int(code), 'edge': p['edge'], 'src': p['src'], 'dst': p['dst'], 'points_node_kind_x_y': p['points']})
+            for p0, p1 in zip(phases[0]['paths'], pa['paths']):
+                if (p0['src'], p0['dst']) != (p1['src'], p1['dst']) or p1['points'][0][0] != p0['points'][0][0] or p1['points'][-1][0] != p0['points'][-1][0]:
+                    bad.append({'kind': 'edge no longer joins its original nodes', 'edge': p1['edge']})
+            if bad:
+                bad_phase = k
+                break
+        last_ok = phases[(bad_phase - 1) if bad_phase else (len(phases) - 1)]
+        state = lambda ph: {'phase': ph['name'], 'nodes_x0y0x1y1': ph['nodes'], 'paths': ph['paths']}
+        if exc or bad:
+            obj = {'what': ('an invariant assertion of libtopology fired during topology-preserving layout; the state after the previous '
+                            'iteration (last_valid_state) satisfies the verified checker' if exc and not bad else
+                            'a state reached during topology-preserving layout is rejected by the verified checker'),
+                   'assertion': exc, 'problems': bad[:4], 'rejected_state': state(phases[bad_phase]) if bad_phase else None,
+                   'last_valid_state': state(last_ok), 'replay': replay, 'params': params}
+            # classifier of the known rare finding: the failure is "a segment passes through a foreign node" (library assertion in
+            # NoIntersection, topology_graph.cpp, or checker code 4) reached from a checker-valid previous state
+            is_through = (exc is not None and 'topology_graph.cpp' in exc and not bad) or (bad and all(b.get('code') == 4 for b in bad))
+            if is_through:
+                rare.append(obj)
+            else:
+                if lay_viol < 3:
+                    res.violation(obj)
+                lay_viol += 1
             continue
-        if len(phases) < 2:
-            continue
-        after = ll[1]
-        pa = phases[1]
+        pa = phases[-1]
         lay['checked_paths'] += len(pa['paths'])
         lay['bends_after'] += sum(max(0, len(p['points']) - 2) for p in pa['paths'])
         lay['moved_nodes'] += sum(1 for a, b in zip(phases[0]['nodes'], pa['nodes']) if a != b)
         if len(lay['params']) < 4:
-            lay['params'].append({'seed': seed, 'V': V, 'extra': extra, 'W': W, 'paths': len(pa['paths'])})
-        bad = []
-        if after[1] != '0':
-            bad.append({'kind': CODES[1]})
-        for p, code in zip(pa['paths'], after[2:]):
-            if code != '0':
-                bad.append({'kind': CODES[int(code)], 'edge': p['edge'], 'src': p['src'], 'dst': p['dst'], 'points_node_kind_x_y': p['points']})
-        # endpoints preserved w.r.t. the start state
-        for p0, p1 in zip(phases[0]['paths'], pa['paths']):
-            if (p0['src'], p0['dst']) != (p1['src'], p1['dst']) or p1['points'][0][0] != p0['points'][0][0] or p1['points'][-1][0] != p0['points'][-1][0]:
-                bad.append({'kind': 'edge no longer joins its original nodes', 'edge': p1['edge']})
-        if bad:
+            lay['params'].append(dict(params, paths=len(pa['paths']), iterations=len(phases) - 2))
+    # the rare finding has a base rate of about 1.3e-3 per run on the unchanged tree (8 of 6000); a systematic failure
+    # (e.g. a wrong step length) shows up in a large fraction of the runs.  More than RARE_MAX classified runs is a violation.
+    n_new = lay['runs'] - sum(1 for r_ in runs if r_[5])
+    RARE_MAX = 2 + n_new // 150
+    n_rare_new = sum(1 for o in rare if not any(o['params']['seed'] == r_[0] and r_[5] for r_ in runs))
+    lay['rare_intersections'] = [dict(o['params'], assertion=o['assertion']) for o in rare][:8]
+    for o in rare:
+        if n_rare_new > RARE_MAX:
             if lay_viol < 3:
-                res.violation({'what': 'result of topology-preserving layout rejected by the verified checker', 'problems': bad[:4],
-                               'nodes_after_x0y0x1y1': pa['nodes'], 'start_state': {'nodes_x0y0x1y1': phases[0]['nodes'], 'paths': phases[0]['paths']},
-                               'replay': replay, 'params': {'seed': seed, 'V': V, 'extra_edges': extra, 'W': W}})
+                o['what'] += ' (%d of %d runs: far above the rate of the known rare finding)' % (n_rare_new, n_new)
+                res.violation(o)
             lay_viol += 1
+        else:
+            if res.violation(o, fingerprint='rare_segment_through_node'):
+                lay_viol += 1
     lay['wall_s'] = round(lay['wall_s'], 1)
     res.cov.update({
         'evaluations': evals,
@@ -325,3 +356,31 @@ def warm():
     build_harness_retry('c13_topo', LIBS, 'exc')
     C.ocaml_build('c13spec', 'C13spec.v', 'c13_spec_driver.ml', 'c13_spec.ml')
     C.ocaml_build('c13gen', 'C13gen.v', 'c13_gen_driver.ml', 'c13_gen.ml')
+
+
+META = {
+    'property_id': PID,
+    'level_claimed': {
+        'category': 'proof',
+        'text': 'Coq theorems over the Gallina definitions that tools/cpp2v.py regenerates from topology_constraints.cpp on every run '
+                '(TriConstraint::slack, slackAtInitial, slackAtFinal, maxSafeAlpha; the Node position reads are mapped to record fields): '
+                'slack at the positions interpolated by alpha is affine in alpha; from a feasible start, every step 0 <= alpha <= maxSafeAlpha '
+                '(<= 1) keeps slack >= 0 and, when the target is infeasible, 0 <= maxSafeAlpha < 1 with slack exactly 0 there - for both leftOf '
+                'orientations; the denominator==0 branch (returns 1) arises only from an already violated constraint; the "tiny negative rounded" '
+                'branch returns a negative alpha (no move) and its COLA_ASSERT cannot fail; for the hand model of the min-alpha move of '
+                'TopologyConstraints::solve() (alpha* = min(1, min_t maxSafeAlpha t), all nodes to initial + alpha*(final-initial) when alpha* > 0) '
+                'every triangle constraint that held before a step holds after it, for any number of steps with arbitrary desired positions '
+                '(C13_step, C13_steps_partial).  PARTIAL for the property as a whole: completeness of the scan-line constraint constructor and the '
+                'bend split/merge surgery of satisfy() are not modelled; they are covered only by the verified checker run on real layout runs, '
+                'which DOES find rare failures on the unchanged tree (known finding rare_segment_through_node).',
+        'design_ref': 'DESIGN.md 5.13'},
+    'level_note': 'Trusted: Coq kernel; cpp2v.py + clang JSON AST incl. the opaque-call mapping u->initialPos(scanDim) -> tc_u1 etc. (validated every run: compiled '
+                  'TriConstraint objects built through the real constructor with real topology::Node / vpsc::Rectangle / vpsc::Variable objects vs extracted Gen vs '
+                  'extracted hand spec on dyadic inputs covering all four branches; the step-rule decider is evaluated on the implementation\'s own values); '
+                  'exact-rational model of binary64 (one division, compared to 1e-12); extraction and the OCaml/C++ drivers. The move of solve() is a hand model '
+                  '(topology_constraints.cpp:330-384 is not translated: it walks object graphs). V-run: seedable variant of libtopology/tests/beautify.cpp, '
+                  'library assertions enabled as exceptions, every state after an iteration checked by the extracted checker (seg_clear: separating-axis '
+                  'test proved sound; node overlap; endpoints; bends on corners turning round their node) with tolerance 2^-20. A run in which a segment '
+                  'ends up through a foreign node from a checker-valid previous state is classified as the known rare finding when at most 2 + runs/150 runs show it.',
+    'technique': 'Coq proof over cpp2v-regenerated Gallina + correspondence on dyadic/boundary inputs + verified checker on real layout runs',
+}
